@@ -13,7 +13,7 @@ theorem vec_progress (len n c : Nat) (evs dr) :
     Vec.progress_and_get_begin_idx (vec len) n (st c evs dr) =
       .ok (if c < len then some c else none) (st (wrapAdd c n) (evs ++ [faa c n]) dr) := by
   simp only [Vec.progress_and_get_begin_idx, Vec.counter, Vec.initial_len, Counter.fetch_and_add, vec, st, faa,
-    bind, M.bind, pure, M.pure, m_fetch_add, m_cmp]
+    bind, M.bind, pure, M.pure, m_fetch_add, St.get_ctr, St.set_ctr, m_cmp]
   by_cases h1 : c < len
   · simp [h1, M.pure]
   · by_cases h2 : c = len <;> simp [h1, h2, M.pure]
@@ -52,7 +52,7 @@ theorem vec_fetch_one (len c : Nat) (evs dr) :
     Vec.fetch_one (vec len) (st c evs dr) =
       .ok (if c < len then some ⟨c, c⟩ else none) (st (wrapAdd c 1) (evs ++ [faa c 1]) dr) := by
   simp only [Vec.fetch_one, Vec.counter, Vec.get, Counter.fetch_and_increment, vec, st, faa,
-    bind, M.bind, pure, M.pure, m_fetch_add, m_cmp, m_take_one, MTakeOne.m_take_one, m_map, MMap.m_map]
+    bind, M.bind, pure, M.pure, m_fetch_add, St.get_ctr, St.set_ctr, m_cmp, m_take_one, MTakeOne.m_take_one, m_map, MMap.m_map]
   by_cases h1 : c < len
   · simp [h1, M.pure, M.bind]
   · by_cases h2 : c = len <;> simp [h1, h2, M.pure, M.bind]
@@ -63,14 +63,14 @@ theorem vec_early_exit (len c : Nat) (evs dr) :
       .ok () (st len (evs ++ [.swp (.ctr 0) .acqrel c len]) (dr ++ [(min c len, len)])) := by
   have h1 : min c len ≤ len := by omega
   have h2 : min c len + (len - min c len) = len := by omega
-  simp [Vec.early_exit, Vec.counter, Counter.swap, vec, st, bind, M.bind, pure, M.pure, m_swap, m_min, op_sub,
+  simp [Vec.early_exit, Vec.counter, Counter.swap, vec, st, bind, M.bind, pure, M.pure, m_swap, St.get_ctr, St.set_ctr, m_min, op_sub,
     m_as_mut_ptr, MAsMutPtr.m_as_mut_ptr, m_add, ptr_slice_from_raw_parts_mut, ptr_drop_in_place, h1, h2]
 
 theorem vec_try_get_len (len c : Nat) (evs dr) :
     Vec.try_get_len (vec len) (st c evs dr) =
       .ok (some (lenOf len c)) (st c (evs ++ [.ld (.ctr 0) .acquire c]) dr) := by
   simp only [Vec.try_get_len, Vec.counter, Vec.initial_len, Counter.current, vec, st, lenOf,
-    bind, M.bind, pure, M.pure, m_load, m_cmp, op_sub]
+    bind, M.bind, pure, M.pure, m_load, MLoad.m_load, St.get_ctr, m_cmp, op_sub]
   by_cases h1 : c < len
   · have : c ≤ len := by omega
     simp [h1, this, M.pure, M.bind]
